@@ -291,6 +291,7 @@ def run(tier, seed):
     if tier != "quick":
         jobs += [("deep", "IntConv_deep", False), ("sweep", "IntConv_sweep", False)]
     src = L.gen_source()
+    core.scratch(), core.subdir("tlc"), core.snapshot()     # (not thread-safe on first use)
     ex = concurrent.futures.ThreadPoolExecutor(max_workers=len(jobs) + 1)
 
     def tlc_job(i, cfg, cv):
